@@ -251,15 +251,15 @@ herr_t H5Tinsert(hid_t h, const char *name, size_t offset, hid_t mh) {
     return 0;
 }
 int H5Tget_nmembers(hid_t h) { MType *t = get_type(h); if (!t || (t->cls != H5T_COMPOUND && t->cls != H5T_ENUM)) return -1; return t->nmem; }
-char *H5Tget_member_name(hid_t h, unsigned i) { MType *t = get_type(h); if (!t || (int)i >= t->nmem) return 0; return h5m_strdup(t->mem[i].name); }
+char *H5Tget_member_name(hid_t h, unsigned i) { MType *t = get_type(h); if (!t || i >= (unsigned)t->nmem) return 0; return h5m_strdup(t->mem[i].name); }
 int H5Tget_member_index(hid_t h, const char *name) {
     MType *t = get_type(h); if (!t) return -1;
     for (int i = 0; i < t->nmem; i++) if (!strcmp(t->mem[i].name, name)) return i;
     return -1;
 }
-size_t H5Tget_member_offset(hid_t h, unsigned i) { MType *t = get_type(h); if (!t || t->cls != H5T_COMPOUND || (int)i >= t->nmem) return 0; return t->mem[i].offset; }
-hid_t H5Tget_member_type(hid_t h, unsigned i) { MType *t = get_type(h); if (!t || t->cls != H5T_COMPOUND || (int)i >= t->nmem) return -1; return mk_id(K_TYPE, type_copy(t->mem[i].type), -1); }
-H5T_class_t H5Tget_member_class(hid_t h, unsigned i) { MType *t = get_type(h); if (!t || t->cls != H5T_COMPOUND || (int)i >= t->nmem) return H5T_NO_CLASS; return t->mem[i].type->cls; }
+size_t H5Tget_member_offset(hid_t h, unsigned i) { MType *t = get_type(h); if (!t || t->cls != H5T_COMPOUND || i >= (unsigned)t->nmem) return 0; return t->mem[i].offset; }
+hid_t H5Tget_member_type(hid_t h, unsigned i) { MType *t = get_type(h); if (!t || t->cls != H5T_COMPOUND || i >= (unsigned)t->nmem) return -1; return mk_id(K_TYPE, type_copy(t->mem[i].type), -1); }
+H5T_class_t H5Tget_member_class(hid_t h, unsigned i) { MType *t = get_type(h); if (!t || t->cls != H5T_COMPOUND || i >= (unsigned)t->nmem) return H5T_NO_CLASS; return t->mem[i].type->cls; }
 herr_t H5Tregister(H5T_pers_t pers, const char *name, hid_t src, hid_t dst, H5T_conv_t func) { (void)pers; (void)name; (void)func; return (get_type(src) && get_type(dst)) ? 0 : -1; }
 
 /* ---------- element conversion ---------- */
